@@ -98,6 +98,12 @@ type Aligner struct {
 	// next one does not match (the code iterates Go maps: loop order is free).
 	Window  int
 	Matched *Entry // the entry matched by the last OnCall, nil if none
+	// PastEnv (optional) lets OnCall look past environment entries: when the call being made matches the entry right
+	// after a run of environment entries and PastEnv(envs, skipped) says the environment steps commute with the
+	// call entries that would be skipped (they concern other objects), the environment steps are executed now and the
+	// skipped entries stay pending. For code whose call order differs from the model's (the model collects after all
+	// reads, the code interleaves reads and collection per object).
+	PastEnv func(envs, skipped []Entry) bool
 	i       int
 
 	Drift    int    // real calls the model did not predict + predicted calls never made
@@ -125,6 +131,7 @@ func (a *Aligner) OnCall(abs string, write bool) simapi.Decision {
 	a.skipVirtual()
 	a.runEnvPeek(abs)
 	a.skipVirtual()
+	a.lookPastEnv(abs)
 	j := a.find(abs)
 	if j < 0 {
 		a.Drift++
@@ -190,6 +197,35 @@ func (a *Aligner) find(abs string) int {
 		seen++
 	}
 	return -1
+}
+
+// lookPastEnv: see PastEnv.
+func (a *Aligner) lookPastEnv(abs string) {
+	if a.PastEnv == nil || a.find(abs) >= 0 {
+		return
+	}
+	seen, j := 0, a.i
+	var skipped []Entry
+	for ; j < len(a.Steps) && seen <= a.Window && a.Steps[j].T == "call"; j++ {
+		if a.Virtual != nil && a.Virtual(a.Steps[j]) {
+			continue
+		}
+		skipped = append(skipped, a.Steps[j])
+		seen++
+	}
+	k := j
+	for k < len(a.Steps) && a.Steps[k].T == "env" {
+		k++
+	}
+	if k == j || k >= len(a.Steps) || a.Steps[k].T != "call" || a.Steps[k].Abs() != abs || !a.PastEnv(a.Steps[j:k], skipped) {
+		return
+	}
+	// move the environment entries and the matched call in front of the skipped call entries
+	moved := append([]Entry(nil), a.Steps[j:k+1]...)
+	rest := append([]Entry(nil), a.Steps[a.i:j]...)
+	copy(a.Steps[a.i:], moved)
+	copy(a.Steps[a.i+len(moved):], rest)
+	a.runEnv()
 }
 
 // runEnvPeek executes pending env entries only if the call after them is the
